@@ -23,6 +23,7 @@ def showCode : Code → String
 def parseOp : String → Option Op
   | "add" => some .add | "sub" => some .sub | "mul" => some .mul | "div" => some .div
   | "pow" => some .pow | "radd" => some .radd | "rsub" => some .rsub | "rmul" => some .rmul
+  | "powD" => some .powD
   | _ => none
 
 def showCall (c : Call) : String :=
